@@ -7,6 +7,14 @@
 #include <gmssl/hex.h>
 #include <gmssl/base64.h>
 #include <gmssl/sm2.h>
+#include <gmssl/sm3.h>
+#include <gmssl/sm4.h>
+#include <gmssl/oid.h>
+#include <gmssl/ec.h>
+#include <gmssl/pem.h>
+#include <gmssl/pkcs8.h>
+#include <gmssl/x509_alg.h>
+#include "entropy.h"
 
 typedef struct { uint8_t *base, *p; size_t n; } xb;
 static xb xalloc(size_t n) { xb b; b.n = n; if (n) { b.base = malloc(n); b.p = b.base; } else { b.base = malloc(1); b.p = b.base + 1; } return b; }
@@ -16,6 +24,11 @@ static xb xhex(const char *s) {
 	return b;
 }
 static void xfree(xb b) { free(b.base); }
+#define PI 0x5a5a5a5a
+static const uint8_t poison_byte;
+#define PP (&poison_byte)
+static void pint(int v) { if (v == PI) printf("POISON"); else printf("%d", v); }
+static void pbuf(const uint8_t *d, size_t n) { if (d == PP) printf("POISON"); else if (!d) printf("NULL"); else puthex(d, n); }
 static int isnull(const char *s) { return !strcmp(s, "NULL"); }
 
 /* two-pass encoder protocol: dry run with out == NULL, dry run with *out == NULL, real run into
@@ -36,42 +49,164 @@ static int isnull(const char *s) { return !strcmp(s, "NULL"); }
 /* decoder protocol: IN (const uint8_t **), INLEN (size_t *); prints consumed count */
 #define DEC_BEGIN(HEX) xb in_ = xhex(HEX); const uint8_t *ip_ = in_.p; size_t il_ = in_.n; const uint8_t **IN = &ip_; size_t *INLEN = &il_; int r_
 #define DEC_RET() if (r_ == 0) { printf("ABSENT"); } else if (r_ < 0) { printf("ERR"); } else
+/* same, printing the out-parameters the interface defines for the "absent" answer */
+#define DEC_RETA(ABS) if (r_ == 0) { printf("ABSENT "); ABS; } else if (r_ < 0) { printf("ERR"); } else
 #define DEC_END() do { if (r_ == 1) { printf(" %zu", in_.n - il_); if (ip_ != in_.p + (in_.n - il_)) printf(" PTRMISMATCH"); } xfree(in_); } while (0)
+
+
+/* ------------------------------------------------------------------ composite objects
+ * Every out-parameter is pre-filled with a poison value and printed on success (and, where the
+ * interface defines it, on "absent"), so a parameter the callee leaves unset is visible. */
+static int myoid(int o) {            /* library enum -> the numbering of coq/Codec/Pkcs.v */
+	switch (o) {
+	case -1: return -1; case OID_undef: return 0; case OID_sm2: return 1; case OID_prime192v1: return 2; case OID_prime256v1: return 3;
+	case OID_secp256k1: return 4; case OID_secp384r1: return 5; case OID_secp521r1: return 6;
+	case OID_ec_public_key: return 10; case OID_rsa_encryption: return 11;
+	case OID_sm4_cbc: return 20; case OID_aes128_cbc: return 21; case OID_aes192_cbc: return 22; case OID_aes256_cbc: return 23;
+	case OID_hmac_sm3: return 30; case PI: return 777777;
+	}
+	return 900000 + o;
+}
+static int liboid(int o) {
+	switch (o) {
+	case -1: return -1; case 0: return OID_undef; case 1: return OID_sm2; case 2: return OID_prime192v1; case 3: return OID_prime256v1;
+	case 4: return OID_secp256k1; case 5: return OID_secp384r1; case 6: return OID_secp521r1; case 10: return OID_ec_public_key; case 11: return OID_rsa_encryption;
+	case 20: return OID_sm4_cbc; case 21: return OID_aes128_cbc; case 22: return OID_aes192_cbc; case 23: return OID_aes256_cbc; case 30: return OID_hmac_sm3;
+	}
+	return 9999;
+}
+static void pkey_out(const SM2_KEY *k, int with_priv) {
+	uint8_t b[64];
+	if (with_priv) { sm2_z256_to_bytes(k->private_key, b); puthex(b, 32); printf(" "); }
+	sm2_z256_point_to_bytes(&k->public_key, b); puthex(b, 64);
+}
+static int key_from_d(SM2_KEY *k, const char *hex) { xb d = xhex(hex); sm2_z256_t x; int r = -1; if (d.n == 32) { sm2_z256_from_bytes(x, d.p); r = sm2_key_set_private_key(k, x); } xfree(d); return r; }
+static int key_from_xy(SM2_KEY *k, const char *hex) { xb d = xhex(hex); SM2_Z256_POINT P; int r = -1; if (d.n == 64 && sm2_z256_point_from_bytes(&P, d.p) == 1) r = sm2_key_set_public_key(k, &P); xfree(d); return r; }
+
+static int handle2(size_t nw, char **w) {
+	const char *op = w[0];
+	if (!strcmp(op, "curveE") && nw == 2) { int id = liboid(atoi(w[1])); ENC(ec_named_curve_to_der(id, OUT, OUTLEN)); }
+	else if (!strcmp(op, "curveD") && nw == 2) { DEC_BEGIN(w[1]); int id = PI; r_ = ec_named_curve_from_der(&id, IN, INLEN);
+		if (r_ == 0) { printf("ABSENT oid="); pint(myoid(id)); } else if (r_ < 0) printf("ERR"); else { printf("OK "); pint(myoid(id)); } DEC_END(); }
+	else if (!strcmp(op, "pkalgE") && nw == 3) { int id = liboid(atoi(w[1])), par = atoi(w[1]) == 10 ? liboid(atoi(w[2])) : atoi(w[2]); ENC(x509_public_key_algor_to_der(id, par, OUT, OUTLEN)); }
+	else if (!strcmp(op, "pkalgD") && nw == 2) { DEC_BEGIN(w[1]); int id = PI, par = PI; r_ = x509_public_key_algor_from_der(&id, &par, IN, INLEN);
+		DEC_RET() { printf("OK "); pint(myoid(id)); printf(" "); pint(id == OID_ec_public_key ? myoid(par) : par); } DEC_END(); }
+	else if (!strcmp(op, "sm2algE") && nw == 1) { ENC(sm2_public_key_algor_to_der(OUT, OUTLEN)); }
+	else if (!strcmp(op, "sm2algD") && nw == 2) { DEC_BEGIN(w[1]); r_ = sm2_public_key_algor_from_der(IN, INLEN); DEC_RET() { printf("OK -"); } DEC_END(); }
+	else if (!strcmp(op, "encalgE") && nw == 3) { int id = liboid(atoi(w[1])); xb iv = xhex(w[2]); ENC(x509_encryption_algor_to_der(id, iv.p, iv.n, OUT, OUTLEN)); xfree(iv); }
+	else if ((!strcmp(op, "encalgD") || !strcmp(op, "p2eD")) && nw == 2) { DEC_BEGIN(w[1]); int id = PI; const uint8_t *iv = PP; size_t ivl = PI;
+		r_ = op[0] == 'e' ? x509_encryption_algor_from_der(&id, &iv, &ivl, IN, INLEN) : pbes2_enc_algor_from_der(&id, &iv, &ivl, IN, INLEN);
+		if (r_ == 0) { printf("ABSENT oid="); pint(myoid(id)); printf(" iv="); pbuf(iv, 0); printf(" ivlen="); pint((int)ivl); }
+		else if (r_ < 0) printf("ERR"); else { printf("OK "); pint(myoid(id)); printf(" "); pbuf(iv, ivl); } DEC_END(); }
+	else if (!strcmp(op, "p2eE") && nw == 3) { int id = liboid(atoi(w[1])); xb iv = xhex(w[2]); ENC(pbes2_enc_algor_to_der(id, iv.p, iv.n, OUT, OUTLEN)); xfree(iv); }
+	else if (!strcmp(op, "prfE") && nw == 2) { int prf = liboid(atoi(w[1])); ENC(pbkdf2_prf_to_der(prf, OUT, OUTLEN)); }
+	else if (!strcmp(op, "prfD") && nw == 2) { DEC_BEGIN(w[1]); int prf = PI; r_ = pbkdf2_prf_from_der(&prf, IN, INLEN);
+		if (r_ == 0) { printf("ABSENT prf="); pint(myoid(prf)); } else if (r_ < 0) printf("ERR"); else { printf("OK "); pint(myoid(prf)); } DEC_END(); }
+	else if ((!strcmp(op, "kdfpE") || !strcmp(op, "kdfaE")) && nw == 5) { xb salt = xhex(w[1]); int iter = atoi(w[2]), kl = atoi(w[3]), prf = liboid(atoi(w[4]));
+		if (op[3] == 'p') ENC(pbkdf2_params_to_der(salt.p, salt.n, iter, kl, prf, OUT, OUTLEN)); else ENC(pbkdf2_algor_to_der(salt.p, salt.n, iter, kl, prf, OUT, OUTLEN)); xfree(salt); }
+	else if ((!strcmp(op, "kdfpD") || !strcmp(op, "kdfaD")) && nw == 2) { DEC_BEGIN(w[1]); const uint8_t *salt = PP; size_t sl = PI; int iter = PI, kl = PI, prf = PI;
+		r_ = op[3] == 'p' ? pbkdf2_params_from_der(&salt, &sl, &iter, &kl, &prf, IN, INLEN) : pbkdf2_algor_from_der(&salt, &sl, &iter, &kl, &prf, IN, INLEN);
+		DEC_RET() { printf("OK "); pbuf(salt, sl); printf(" "); pint(iter); printf(" "); pint(kl); printf(" "); pint(myoid(prf)); } DEC_END(); }
+	else if ((!strcmp(op, "p2pE") || !strcmp(op, "p2aE")) && nw == 7) { xb salt = xhex(w[1]), iv = xhex(w[6]); int iter = atoi(w[2]), kl = atoi(w[3]), prf = liboid(atoi(w[4])), ci = liboid(atoi(w[5]));
+		if (op[2] == 'p') ENC(pbes2_params_to_der(salt.p, salt.n, iter, kl, prf, ci, iv.p, iv.n, OUT, OUTLEN)); else ENC(pbes2_algor_to_der(salt.p, salt.n, iter, kl, prf, ci, iv.p, iv.n, OUT, OUTLEN)); xfree(salt); xfree(iv); }
+	else if ((!strcmp(op, "p2pD") || !strcmp(op, "p2aD")) && nw == 2) { DEC_BEGIN(w[1]); const uint8_t *salt = PP, *iv = PP; size_t sl = PI, ivl = PI; int iter = PI, kl = PI, prf = PI, ci = PI;
+		r_ = op[2] == 'p' ? pbes2_params_from_der(&salt, &sl, &iter, &kl, &prf, &ci, &iv, &ivl, IN, INLEN) : pbes2_algor_from_der(&salt, &sl, &iter, &kl, &prf, &ci, &iv, &ivl, IN, INLEN);
+		DEC_RET() { printf("OK "); pbuf(salt, sl); printf(" "); pint(iter); printf(" "); pint(kl); printf(" "); pint(myoid(prf)); printf(" "); pint(myoid(ci)); printf(" "); pbuf(iv, ivl); } DEC_END(); }
+	else if (!strcmp(op, "p8eE") && nw == 8) { xb salt = xhex(w[1]), iv = xhex(w[6]), en = xhex(w[7]); int iter = atoi(w[2]), kl = atoi(w[3]), prf = liboid(atoi(w[4])), ci = liboid(atoi(w[5]));
+		ENC(pkcs8_enced_private_key_info_to_der(salt.p, salt.n, iter, kl, prf, ci, iv.p, iv.n, en.p, en.n, OUT, OUTLEN)); xfree(salt); xfree(iv); xfree(en); }
+	else if (!strcmp(op, "p8eD") && nw == 2) { DEC_BEGIN(w[1]); const uint8_t *salt = PP, *iv = PP, *en = PP; size_t sl = PI, ivl = PI, enl = PI; int iter = PI, kl = PI, prf = PI, ci = PI;
+		r_ = pkcs8_enced_private_key_info_from_der(&salt, &sl, &iter, &kl, &prf, &ci, &iv, &ivl, &en, &enl, IN, INLEN);
+		DEC_RET() { printf("OK "); pbuf(salt, sl); printf(" "); pint(iter); printf(" "); pint(kl); printf(" "); pint(myoid(prf)); printf(" "); pint(myoid(ci)); printf(" "); pbuf(iv, ivl); printf(" "); pbuf(en, enl); } DEC_END(); }
+	else if (!strcmp(op, "ctE") && nw == 5) { xb x = xhex(w[1]), y = xhex(w[2]), h = xhex(w[3]), c = xhex(w[4]); SM2_CIPHERTEXT *C = malloc(sizeof(*C)); memset(C, 0, sizeof(*C));
+		memcpy(C->point.x, x.p, x.n < 32 ? x.n : 32); memcpy(C->point.y, y.p, y.n < 32 ? y.n : 32); memcpy(C->hash, h.p, h.n < 32 ? h.n : 32); memcpy(C->ciphertext, c.p, c.n < 255 ? c.n : 255); C->ciphertext_size = (uint8_t)(c.n < 255 ? c.n : 255);
+		ENC(sm2_ciphertext_to_der(C, OUT, OUTLEN)); free(C); xfree(x); xfree(y); xfree(h); xfree(c); }
+	else if (!strcmp(op, "ctD") && nw == 2) { DEC_BEGIN(w[1]); SM2_CIPHERTEXT *C = malloc(sizeof(*C)); memset(C, 0x5a, sizeof(*C));
+		r_ = sm2_ciphertext_from_der(C, IN, INLEN); DEC_RET() { printf("OK "); puthex(C->point.x, 32); printf(" "); puthex(C->point.y, 32); printf(" "); puthex(C->hash, 32); printf(" "); puthex(C->ciphertext, C->ciphertext_size); } DEC_END(); free(C); }
+	else if ((!strcmp(op, "pubE") || !strcmp(op, "pubiE")) && nw >= 2) { SM2_KEY *k = malloc(sizeof(*k)); if (key_from_xy(k, w[1]) != 1) printf("ERR-KEYSET");
+		else if (op[3] == 'E') ENC(sm2_public_key_to_der(k, OUT, OUTLEN)); else ENC(sm2_public_key_info_to_der(k, OUT, OUTLEN)); free(k); }
+	else if ((!strcmp(op, "pubD") || !strcmp(op, "pubiD")) && nw >= 2) { DEC_BEGIN(w[1]); SM2_KEY *k = malloc(sizeof(*k)); memset(k, 0x5a, sizeof(*k));
+		r_ = op[3] == 'D' ? sm2_public_key_from_der(k, IN, INLEN) : sm2_public_key_info_from_der(k, IN, INLEN); DEC_RET() { printf("OK "); pkey_out(k, 0); } DEC_END(); free(k); }
+	else if ((!strcmp(op, "privE") || !strcmp(op, "p8E")) && nw >= 2) { SM2_KEY *k = malloc(sizeof(*k)); if (key_from_d(k, w[1]) != 1) printf("ERR-KEYSET");
+		else if (op[1] == 'r') ENC(sm2_private_key_to_der(k, OUT, OUTLEN)); else ENC(sm2_private_key_info_to_der(k, OUT, OUTLEN)); free(k); }
+	else if (!strcmp(op, "privD") && nw >= 2) { DEC_BEGIN(w[1]); SM2_KEY *k = malloc(sizeof(*k)); memset(k, 0x5a, sizeof(*k));
+		r_ = sm2_private_key_from_der(k, IN, INLEN); DEC_RET() { printf("OK "); pkey_out(k, 1); } DEC_END(); free(k); }
+	else if (!strcmp(op, "p8D") && nw >= 2) { DEC_BEGIN(w[1]); SM2_KEY *k = malloc(sizeof(*k)); const uint8_t *at = PP; size_t atl = PI; memset(k, 0x5a, sizeof(*k));
+		r_ = sm2_private_key_info_from_der(k, &at, &atl, IN, INLEN); DEC_RET() { printf("OK "); pkey_out(k, 1); printf(" "); pbuf(at, atl); } DEC_END(); free(k); }
+	else if (!strcmp(op, "kdf") && nw == 4) { xb pass = xhex(w[1]), salt = xhex(w[2]); uint8_t key[16]; int r = sm3_pbkdf2((char *)pass.p, pass.n, salt.p, salt.n, (size_t)atoi(w[3]), 16, key);
+		if (r == 1) puthex(key, 16); else printf("ERR"); xfree(pass); xfree(salt); }
+	else if (!strcmp(op, "p8seal") && nw >= 8) {       /* EncryptedPrivateKeyInfo with chosen parameters, as sm2_private_key_info_encrypt_to_der builds it */
+		SM2_KEY *k = malloc(sizeof(*k)); xb pass = xhex(w[2]), salt = xhex(w[3]), iv = xhex(w[4]); int iter = atoi(w[5]), kl = atoi(w[6]), prf = liboid(atoi(w[7]));
+		uint8_t info[256], enced[300], key[16]; uint8_t *ip = info; size_t il = 0, el = 0; SM4_KEY sk;
+		if (key_from_d(k, w[1]) != 1 || iv.n != 16 || sm2_private_key_info_to_der(k, &ip, &il) != 1
+			|| sm3_pbkdf2((char *)pass.p, pass.n, salt.p, salt.n, (size_t)iter, 16, key) != 1) printf("ERR-SEAL");
+		else { sm4_set_encrypt_key(&sk, key);
+			if (sm4_cbc_padding_encrypt(&sk, iv.p, info, il, enced, &el) != 1) printf("ERR-SEAL");
+			else ENC(pkcs8_enced_private_key_info_to_der(salt.p, salt.n, iter, kl, prf, OID_sm4_cbc, iv.p, iv.n, enced, el, OUT, OUTLEN)); }
+		free(k); xfree(pass); xfree(salt); xfree(iv); }
+	else if (!strcmp(op, "p8sealraw") && nw >= 8) {    /* the same wrapping around an arbitrary plaintext (e.g. a PrivateKeyInfo with attributes) */
+		xb info = xhex(w[1]), pass = xhex(w[2]), salt = xhex(w[3]), iv = xhex(w[4]); int iter = atoi(w[5]), kl = atoi(w[6]), prf = liboid(atoi(w[7]));
+		uint8_t enced[600], key[16]; size_t el = 0; SM4_KEY sk;
+		if (iv.n != 16 || info.n > 500 || sm3_pbkdf2((char *)pass.p, pass.n, salt.p, salt.n, (size_t)iter, 16, key) != 1) printf("ERR-SEAL");
+		else { sm4_set_encrypt_key(&sk, key);
+			if (sm4_cbc_padding_encrypt(&sk, iv.p, info.p, info.n, enced, &el) != 1) printf("ERR-SEAL");
+			else ENC(pkcs8_enced_private_key_info_to_der(salt.p, salt.n, iter, kl, prf, OID_sm4_cbc, iv.p, iv.n, enced, el, OUT, OUTLEN)); }
+		xfree(info); xfree(pass); xfree(salt); xfree(iv); }
+	else if (!strcmp(op, "p8sealLib") && nw == 4) {    /* the library's own writer (65536 iterations), entropy scripted from the seed */
+		SM2_KEY *k = malloc(sizeof(*k)); xb pass = xhex(w[2]); char *pz = malloc(pass.n + 1); memcpy(pz, pass.p, pass.n); pz[pass.n] = 0;
+		ent_seed((uint64_t)strtoull(w[3], NULL, 10), -1);
+		if (key_from_d(k, w[1]) != 1) printf("ERR-KEYSET"); else ENC(sm2_private_key_info_encrypt_to_der(k, pz, OUT, OUTLEN));
+		free(k); free(pz); xfree(pass); }
+	else if (!strcmp(op, "p8open") && nw >= 3) { xb pass = xhex(w[1]); char *pz = malloc(pass.n + 1); memcpy(pz, pass.p, pass.n); pz[pass.n] = 0;
+		DEC_BEGIN(w[2]); SM2_KEY *k = malloc(sizeof(*k)); const uint8_t *at = PP; size_t atl = PI; memset(k, 0x5a, sizeof(*k));
+		r_ = sm2_private_key_info_decrypt_from_der(k, &at, &atl, pz, IN, INLEN);
+		if (r_ == 1) { printf("OK "); pkey_out(k, 1); printf(" "); pbuf(at, atl); } else printf("ERR"); DEC_END(); free(k); free(pz); xfree(pass); }
+	else if (!strcmp(op, "pemW") && nw == 3) { xb name = xhex(w[1]), d = xhex(w[2]); char *nz = malloc(name.n + 1); char *txt = NULL; size_t tl = 0; FILE *fp = open_memstream(&txt, &tl); int r;
+		memcpy(nz, name.p, name.n); nz[name.n] = 0; r = pem_write(fp, nz, d.p, d.n); fclose(fp);
+		if (r == 1) { printf("OK "); puthex((uint8_t *)txt, tl); } else printf("ERR"); free(txt); free(nz); xfree(name); xfree(d); }
+	else if (!strcmp(op, "pemR") && nw == 4) { xb name = xhex(w[1]), t = xhex(w[3]); size_t maxlen = strtoul(w[2], NULL, 10), ol = PI; xb o = xalloc(maxlen); char *nz = malloc(name.n + 1);
+		FILE *fp = t.n ? fmemopen(t.p, t.n, "r") : fopen("/dev/null", "r"); int r; memcpy(nz, name.p, name.n); nz[name.n] = 0;
+		r = pem_read(fp, nz, o.p, &ol, maxlen);
+		if (r == 1) { printf("OK "); puthex(o.p, ol); printf(" %ld", ftell(fp)); } else if (r == 0) printf("ABSENT"); else printf("ERR");
+		fclose(fp); free(nz); xfree(o); xfree(name); xfree(t); }
+	else return 0;
+	return 1;
+}
 
 static void handle(size_t nw, char **w) {
 	const char *op = w[0];
+	if (handle2(nw, w)) return;
 	if (!strcmp(op, "lenE") && nw == 2) { size_t l = strtoull(w[1], NULL, 10); ENC(asn1_length_to_der(l, OUT, OUTLEN)); }
 	else if (!strcmp(op, "lenD") && nw == 2) { DEC_BEGIN(w[1]); size_t l = 0; r_ = asn1_length_from_der(&l, IN, INLEN); DEC_RET() { printf("OK %zu", l); } DEC_END(); }
 	else if (!strcmp(op, "typE") && nw == 3) { int tag = atoi(w[1]); xb d = isnull(w[2]) ? xalloc(0) : xhex(w[2]);
 		ENC(asn1_type_to_der(tag, isnull(w[2]) ? NULL : d.p, d.n, OUT, OUTLEN)); xfree(d); }
-	else if ((!strcmp(op, "typD") || !strcmp(op, "netD")) && nw == 3) { int tag = atoi(w[1]); DEC_BEGIN(w[2]); const uint8_t *d = NULL; size_t dl = 0;
+	else if ((!strcmp(op, "typD") || !strcmp(op, "netD")) && nw == 3) { int tag = atoi(w[1]); DEC_BEGIN(w[2]); const uint8_t *d = PP; size_t dl = PI;
 		r_ = op[0] == 't' ? asn1_type_from_der(tag, &d, &dl, IN, INLEN) : asn1_nonempty_type_from_der(tag, &d, &dl, IN, INLEN);
-		DEC_RET() { printf("OK "); puthex(d, dl); } DEC_END(); }
-	else if (!strcmp(op, "anytD") && nw == 2) { DEC_BEGIN(w[1]); int tag = 0; const uint8_t *d = NULL; size_t dl = 0;
-		r_ = asn1_any_type_from_der(&tag, &d, &dl, IN, INLEN); DEC_RET() { printf("OK %d ", tag); puthex(d, dl); } DEC_END(); }
+		DEC_RETA((printf("d="), pbuf(d, 0), printf(" dlen="), pint((int)dl))) { printf("OK "); puthex(d, dl); } DEC_END(); }
+	else if (!strcmp(op, "anytD") && nw == 2) { DEC_BEGIN(w[1]); int tag = PI; const uint8_t *d = PP; size_t dl = PI;
+		r_ = asn1_any_type_from_der(&tag, &d, &dl, IN, INLEN); DEC_RETA((printf("tag="), pint(tag), printf(" d="), pbuf(d, 0), printf(" dlen="), pint((int)dl))) { printf("OK %d ", tag); puthex(d, dl); } DEC_END(); }
 	else if (!strcmp(op, "anyD") && nw == 2) { DEC_BEGIN(w[1]); const uint8_t *a = NULL; size_t al = 0;
 		r_ = asn1_any_from_der(&a, &al, IN, INLEN); DEC_RET() { printf("OK "); puthex(a, al); } DEC_END(); }
 	else if (!strcmp(op, "boolE") && nw == 3) { int tag = atoi(w[1]), v = atoi(w[2]); ENC(asn1_boolean_to_der_ex(tag, v, OUT, OUTLEN)); }
-	else if (!strcmp(op, "boolD") && nw == 3) { int tag = atoi(w[1]); DEC_BEGIN(w[2]); int v = 7;
-		r_ = asn1_boolean_from_der_ex(tag, &v, IN, INLEN); DEC_RET() { printf("OK %d", v); } DEC_END(); }
+	else if (!strcmp(op, "boolD") && nw == 3) { int tag = atoi(w[1]); DEC_BEGIN(w[2]); int v = PI;
+		r_ = asn1_boolean_from_der_ex(tag, &v, IN, INLEN); DEC_RETA((printf("val="), pint(v))) { printf("OK %d", v); } DEC_END(); }
 	else if (!strcmp(op, "intE") && nw == 3) { int tag = atoi(w[1]); xb a = isnull(w[2]) ? xalloc(0) : xhex(w[2]);
 		ENC(asn1_integer_to_der_ex(tag, isnull(w[2]) ? NULL : a.p, a.n, OUT, OUTLEN)); xfree(a); }
-	else if (!strcmp(op, "intD") && nw == 3) { int tag = atoi(w[1]); DEC_BEGIN(w[2]); const uint8_t *a = NULL; size_t al = 0;
-		r_ = asn1_integer_from_der_ex(tag, &a, &al, IN, INLEN); DEC_RET() { printf("OK "); puthex(a, al); } DEC_END(); }
+	else if (!strcmp(op, "intD") && nw == 3) { int tag = atoi(w[1]); DEC_BEGIN(w[2]); const uint8_t *a = PP; size_t al = PI;
+		r_ = asn1_integer_from_der_ex(tag, &a, &al, IN, INLEN); DEC_RETA((printf("a="), pbuf(a, 0), printf(" alen="), pint((int)al))) { printf("OK "); puthex(a, al); } DEC_END(); }
 	else if (!strcmp(op, "i32E") && nw == 3) { int tag = atoi(w[1]); int a = (int)strtol(w[2], NULL, 10); ENC(asn1_int_to_der_ex(tag, a, OUT, OUTLEN)); }
-	else if (!strcmp(op, "i32D") && nw == 3) { int tag = atoi(w[1]); DEC_BEGIN(w[2]); int a = 7;
-		r_ = asn1_int_from_der_ex(tag, &a, IN, INLEN); DEC_RET() { printf("OK %d", a); } DEC_END(); }
+	else if (!strcmp(op, "i32D") && nw == 3) { int tag = atoi(w[1]); DEC_BEGIN(w[2]); int a = PI;
+		r_ = asn1_int_from_der_ex(tag, &a, IN, INLEN); DEC_RETA((printf("a="), pint(a))) { printf("OK %d", a); } DEC_END(); }
 	else if (!strcmp(op, "bstrE") && nw == 4) { int tag = atoi(w[1]); xb b = isnull(w[2]) ? xalloc(0) : xhex(w[2]); size_t nbits = strtoull(w[3], NULL, 10);
 		ENC(asn1_bit_string_to_der_ex(tag, isnull(w[2]) ? NULL : b.p, nbits, OUT, OUTLEN)); xfree(b); }
-	else if (!strcmp(op, "bstrD") && nw == 3) { int tag = atoi(w[1]); DEC_BEGIN(w[2]); const uint8_t *b = NULL; size_t nb = 0;
-		r_ = asn1_bit_string_from_der_ex(tag, &b, &nb, IN, INLEN); DEC_RET() { printf("OK "); puthex(b, (nb + 7) / 8); printf(" %zu", nb); } DEC_END(); }
+	else if (!strcmp(op, "bstrD") && nw == 3) { int tag = atoi(w[1]); DEC_BEGIN(w[2]); const uint8_t *b = PP; size_t nb = PI;
+		r_ = asn1_bit_string_from_der_ex(tag, &b, &nb, IN, INLEN); DEC_RETA((printf("bits="), pbuf(b, 0), printf(" nbits="), pint((int)nb))) { printf("OK "); puthex(b, (nb + 7) / 8); printf(" %zu", nb); } DEC_END(); }
 	else if (!strcmp(op, "boctE") && nw == 3) { int tag = atoi(w[1]); xb b = isnull(w[2]) ? xalloc(0) : xhex(w[2]);
 		ENC(asn1_bit_octets_to_der_ex(tag, isnull(w[2]) ? NULL : b.p, b.n, OUT, OUTLEN)); xfree(b); }
-	else if (!strcmp(op, "boctD") && nw == 3) { int tag = atoi(w[1]); DEC_BEGIN(w[2]); const uint8_t *b = NULL; size_t n = 0;
-		r_ = asn1_bit_octets_from_der_ex(tag, &b, &n, IN, INLEN); DEC_RET() { printf("OK "); puthex(b, n); } DEC_END(); }
+	else if (!strcmp(op, "boctD") && nw == 3) { int tag = atoi(w[1]); DEC_BEGIN(w[2]); const uint8_t *b = PP; size_t n = PI;
+		r_ = asn1_bit_octets_from_der_ex(tag, &b, &n, IN, INLEN); DEC_RETA((printf("octs="), pbuf(b, 0), printf(" nocts="), pint((int)n))) { printf("OK "); puthex(b, n); } DEC_END(); }
 	else if (!strcmp(op, "bitsE") && nw == 3) { int tag = atoi(w[1]); int v = (int)strtol(w[2], NULL, 10); ENC(asn1_bits_to_der_ex(tag, v, OUT, OUTLEN)); }
-	else if (!strcmp(op, "bitsD") && nw == 3) { int tag = atoi(w[1]); DEC_BEGIN(w[2]); int v = 7;
-		r_ = asn1_bits_from_der_ex(tag, &v, IN, INLEN); DEC_RET() { printf("OK %d", v); } DEC_END(); }
+	else if (!strcmp(op, "bitsD") && nw == 3) { int tag = atoi(w[1]); DEC_BEGIN(w[2]); int v = PI;
+		r_ = asn1_bits_from_der_ex(tag, &v, IN, INLEN); DEC_RETA((printf("bits="), pint(v))) { printf("OK %d", v); } DEC_END(); }
 	else if (!strcmp(op, "nullE") && nw == 1) { ENC(asn1_null_to_der(OUT, OUTLEN)); }
 	else if (!strcmp(op, "nullD") && nw == 2) { DEC_BEGIN(w[1]); r_ = asn1_null_from_der(IN, INLEN); DEC_RET() { printf("OK -"); } DEC_END(); }
 	else if ((!strcmp(op, "oidE") && nw == 2) || (!strcmp(op, "oidderE") && nw == 3)) {
@@ -91,16 +226,16 @@ static void handle(size_t nw, char **w) {
 		int r = asn1_object_identifier_from_octets(nodes, &cnt, in.p, in.n);
 		if (r != 1) printf("ERR"); else { printf("OK "); for (i = 0; i < cnt; i++) printf("%s%u", i ? "." : "", nodes[i]); }
 		free(nodes); xfree(in); }
-	else if (!strcmp(op, "oidderD") && nw == 3) { int tag = atoi(w[1]); DEC_BEGIN(w[2]); uint32_t *nodes = malloc(ASN1_OID_MAX_NODES * sizeof(uint32_t)); size_t cnt = 0, i;
+	else if (!strcmp(op, "oidderD") && nw == 3) { int tag = atoi(w[1]); DEC_BEGIN(w[2]); uint32_t *nodes = malloc(ASN1_OID_MAX_NODES * sizeof(uint32_t)); size_t cnt = PI, i;
 		r_ = asn1_object_identifier_from_der_ex(tag, nodes, &cnt, IN, INLEN);
-		DEC_RET() { printf("OK "); for (i = 0; i < cnt; i++) printf("%s%u", i ? "." : "", nodes[i]); } DEC_END(); free(nodes); }
+		DEC_RETA((printf("cnt="), pint((int)cnt))) { printf("OK "); for (i = 0; i < cnt; i++) printf("%s%u", i ? "." : "", nodes[i]); } DEC_END(); free(nodes); }
 	else if (!strcmp(op, "seqintE") && nw == 2) { int *nums = malloc(64 * sizeof(int)); size_t cnt = 0; char *cp = strdup(w[1]), *sv = NULL, *t;
 		if (strcmp(w[1], ".")) for (t = strtok_r(cp, ",", &sv); t && cnt < 64; t = strtok_r(NULL, ",", &sv)) nums[cnt++] = (int)strtol(t, NULL, 10);
 		{ int *ex = malloc(cnt ? cnt * 4 : 1); memcpy(ex, nums, cnt * 4); free(nums); nums = ex; }
 		ENC(asn1_sequence_of_int_to_der(nums, cnt, OUT, OUTLEN)); free(nums); free(cp); }
-	else if (!strcmp(op, "seqintD") && nw == 3) { size_t mx = strtoul(w[1], NULL, 10); DEC_BEGIN(w[2]); int *nums = malloc(mx ? mx * sizeof(int) : 1); size_t cnt = 0, i;
+	else if (!strcmp(op, "seqintD") && nw == 3) { size_t mx = strtoul(w[1], NULL, 10); DEC_BEGIN(w[2]); int *nums = malloc(mx ? mx * sizeof(int) : 1); size_t cnt = PI, i;
 		r_ = asn1_sequence_of_int_from_der(nums, &cnt, mx, IN, INLEN);
-		DEC_RET() { printf("OK "); if (!cnt) printf("."); for (i = 0; i < cnt; i++) printf("%s%d", i ? "," : "", nums[i]); } DEC_END(); free(nums); }
+		DEC_RETA((printf("cnt="), pint((int)cnt))) { printf("OK "); if (!cnt) printf("."); for (i = 0; i < cnt; i++) printf("%s%d", i ? "," : "", nums[i]); } DEC_END(); free(nums); }
 	else if (!strcmp(op, "isstr") && nw == 3) { xb a = xhex(w[2]); int r;
 		if (!strcmp(w[1], "utf8")) r = asn1_string_is_utf8_string((char *)a.p, a.n);
 		else if (!strcmp(w[1], "prn")) r = asn1_string_is_printable_string((char *)a.p, a.n);
@@ -111,11 +246,11 @@ static void handle(size_t nw, char **w) {
 		else if (!strcmp(w[1], "prn")) ENC(asn1_printable_string_to_der_ex(tag, dp, d.n, OUT, OUTLEN));
 		else ENC(asn1_ia5_string_to_der_ex(tag, dp, d.n, OUT, OUTLEN));
 		xfree(d); }
-	else if (!strcmp(op, "strD") && nw == 4) { int tag = atoi(w[2]); DEC_BEGIN(w[3]); const char *d = NULL; size_t dl = 0;
+	else if (!strcmp(op, "strD") && nw == 4) { int tag = atoi(w[2]); DEC_BEGIN(w[3]); const char *d = (const char *)PP; size_t dl = PI;
 		if (!strcmp(w[1], "utf8")) r_ = asn1_utf8_string_from_der_ex(tag, &d, &dl, IN, INLEN);
 		else if (!strcmp(w[1], "prn")) r_ = asn1_printable_string_from_der_ex(tag, &d, &dl, IN, INLEN);
 		else r_ = asn1_ia5_string_from_der_ex(tag, &d, &dl, IN, INLEN);
-		DEC_RET() { printf("OK "); puthex((const uint8_t *)d, dl); } DEC_END(); }
+		DEC_RETA((printf("d="), pbuf((const uint8_t *)d, 0), printf(" dlen="), pint((int)dl))) { printf("OK "); puthex((const uint8_t *)d, dl); } DEC_END(); }
 	else if (!strcmp(op, "sigE") && nw == 3) { xb r = xhex(w[1]), s = xhex(w[2]); SM2_SIGNATURE *sig = malloc(sizeof(*sig));
 		memset(sig, 0, sizeof(*sig)); memcpy(sig->r, r.p, r.n < 32 ? r.n : 32); memcpy(sig->s, s.p, s.n < 32 ? s.n : 32);
 		ENC(sm2_signature_to_der(sig, OUT, OUTLEN)); free(sig); xfree(r); xfree(s); }
@@ -161,9 +296,9 @@ static void handle(size_t nw, char **w) {
 		int r = asn1_time_from_str(utc, &t, (char *)s.p); if (r == 1) printf("OK %lld", (long long)t); else printf("ERR"); xfree(s); }
 	else if (!strcmp(op, "timeE") && nw == 4) { int utc = atoi(w[1]), tag = atoi(w[2]); time_t t = (time_t)strtoll(w[3], NULL, 10);
 		if (utc) ENC(asn1_utc_time_to_der_ex(tag, t, OUT, OUTLEN)); else ENC(asn1_generalized_time_to_der_ex(tag, t, OUT, OUTLEN)); }
-	else if (!strcmp(op, "timeD") && nw == 4) { int utc = atoi(w[1]), tag = atoi(w[2]); DEC_BEGIN(w[3]); time_t t = 0;
+	else if (!strcmp(op, "timeD") && nw == 4) { int utc = atoi(w[1]), tag = atoi(w[2]); DEC_BEGIN(w[3]); time_t t = PI;
 		r_ = utc ? asn1_utc_time_from_der_ex(tag, &t, IN, INLEN) : asn1_generalized_time_from_der_ex(tag, &t, IN, INLEN);
-		DEC_RET() { printf("OK %lld", (long long)t); } DEC_END(); }
+		DEC_RETA((printf("t="), pint((int)t))) { printf("OK %lld", (long long)t); } DEC_END(); }
 	else printf("ERR bad-op");
 }
 
